@@ -205,10 +205,10 @@ func vrfC10ServerScript(h *vrfSrv, rng *rand.Rand, d *vrfC10Desc) {
 			}
 			n := vsrvPick(rng, 0, 1, 1+rng.IntN(100), 1+rng.IntN(5000), 4096, 1+rng.IntN(20000), int(mf))
 			pad := vrfPadding(rng)
-			if st.cl >= 0 && st.taint == "" {
-				// stay within the declared length on a clean stream
+			if st.cl >= 0 && st.taint != "beyond-content-length" {
+				// stay within the declared length (one discard path per stream)
 				if rest := st.cl - st.dataSent; int64(n) > rest {
-					n = int(rest)
+					n = int(max(rest, 0))
 				}
 			}
 			n, pad = vrfFit(n, pad, limit)
@@ -315,7 +315,7 @@ func vrfC10ServerScript(h *vrfSrv, rng *rand.Rand, d *vrfC10Desc) {
 				return ""
 			}
 			st.taint = t
-			h.data(st, n, -1, rng.IntN(2) == 0)
+			h.data(st, n, -1, false)
 			d.paths[t] = true
 			d.note("DATA s=%d data=%d (crossing content-length %d)", st.id, n, st.cl)
 		case "after-end-stream":
@@ -487,7 +487,7 @@ func vrfC10FinishSrvStream(h *vrfSrv, rng *rand.Rand, d *vrfC10Desc, st *vrfSrvS
 			h.data(st, 0, -1, true)
 		} else {
 			// complete the declared length
-			for st.dataSent < st.cl {
+			for i := 0; st.dataSent < st.cl && i < 12; i++ {
 				conn, sw, mf := h.view(st.id)
 				n := min(st.cl-st.dataSent, conn, sw, mf)
 				if n <= 0 {
@@ -630,9 +630,9 @@ func vrfC10ClientScript(h *vrfCli, rng *rand.Rand, d *vrfC10Desc) {
 			}
 			n := vsrvPick(rng, 0, 1, 1+rng.IntN(100), 1+rng.IntN(5000), 4096, 1+rng.IntN(20000), int(mf))
 			pad := vrfPadding(rng)
-			if rq.cl >= 0 && rq.taint == "" {
+			if rq.cl >= 0 && rq.taint != "beyond-content-length" {
 				if rest := rq.cl - rq.dataSent; int64(n) > rest {
-					n = int(rest)
+					n = int(max(rest, 0))
 				}
 			}
 			n, pad = vrfFit(n, pad, limit)
@@ -734,7 +734,7 @@ func vrfC10ClientScript(h *vrfCli, rng *rand.Rand, d *vrfC10Desc) {
 				return ""
 			}
 			rq.taint = t
-			sc.send(h.dataFrame(nil, rq, n, -1, rng.IntN(2) == 0))
+			sc.send(h.dataFrame(nil, rq, n, -1, false))
 			d.paths[t] = true
 			d.note("DATA s=%d data=%d (crossing content-length %d)", rq.id, n, rq.cl)
 		case "after-end-stream", "short-body":
@@ -768,7 +768,7 @@ func vrfC10ClientScript(h *vrfCli, rng *rand.Rand, d *vrfC10Desc) {
 			if rq == nil {
 				break
 			}
-			what = "request@"
+			what = "request@" + rq.taint
 			switch rng.IntN(8) {
 			case 0: // DATA before the response HEADERS
 				if rq.taint == "" {
@@ -884,6 +884,7 @@ func vrfC10ClientScript(h *vrfCli, rng *rand.Rand, d *vrfC10Desc) {
 			old := rq.taint
 			rq.taint = "finished-stream"
 			rq.srvEnded = true
+			rq.cl = -1
 			sendData(rq, 1+rng.IntN(3), false)
 			h.check("data@finished-stream")
 			_ = old
@@ -914,7 +915,7 @@ func vrfC10FinishCliReq(h *vrfCli, rng *rand.Rand, d *vrfC10Desc, rq *vrfReq) {
 		case rq.cl < 0 || rq.taint != "" || rq.dataSent == rq.cl:
 			sc.send(h.dataFrame(nil, rq, 0, -1, true))
 		default:
-			for rq.dataSent < rq.cl && !h.dead {
+			for i := 0; rq.dataSent < rq.cl && !h.dead && i < 12; i++ {
 				conn, sw, mf := h.view(rq.id)
 				n := min(rq.cl-rq.dataSent, conn, sw, mf)
 				if n <= 0 {
@@ -934,6 +935,7 @@ func vrfC10FinishCliReq(h *vrfCli, rng *rand.Rand, d *vrfC10Desc, rq *vrfReq) {
 		rq.app.send(vrfCmd{'A', vsrvPick(rng, 512, 4096, 70000)})
 	}
 	rq.app.send(vrfCmd{'c', 0})
+	rq.app.send(vrfCmd{'x', 0})
 	d.note("finish s=%d (mode %d)", rq.id, mode)
 	// a request whose RoundTrip has not returned (no response yet / failed) is released
 	if done, _, _ := rq.roundTripState(); !done {
